@@ -309,7 +309,7 @@ def _case_strategy(fmt_kind):
     else:
         container = "zip" if fmt not in ("pdf", "rtf") else None
         base = st.fixed_dictionaries({"kind": st.just("images"), "case": c14.cases(fmt), "path": path})
-    mutated = st.tuples(base, mutate.recipes(container)).map(lambda t: dict(t[0], mutation=t[1], props={}))
+    mutated = st.tuples(base, mutate.recipes(container, fmt)).map(lambda t: dict(t[0], mutation=t[1], props={}))
     return base, mutated
 
 
@@ -358,9 +358,34 @@ def _targets():
     return [x for x in t if not sel or x[1] in sel.split(",")]
 
 
+UNITS = [0x41, 0x20, 0xE9, 0x4E2D, 0x20AC, 0xD83D, 0xDE00, 0xDC3C, 0xD800, 0xDBFF, 0xDFFF, 0xFFFF, 0xFFFE, 0x7F, 0x80, 0xA0]
+
+
+def _rtf_units(parts: dict) -> bytes:
+    def esc(units):
+        return "".join(chr(u) if 0x20 <= u < 0x7F and chr(u) not in "\\{}" else f"\\u{u - 65536 if u > 32767 else u}?" for u in units)
+    return ("{\\rtf1\\ansi\\ansicpg1252\\uc1\\deff0{\\fonttbl{\\f0 Arial;}}{\\info{\\title T" + esc(parts["title"]) + "}{\\author A" + esc(parts["author"]) + "}}\n"
+            "\\pard body " + esc(parts["body"]) + " end\\par\n\\trowd\\cellx2000\\cellx4000 c" + esc(parts["cell"]) + "\\cell d\\cell\\row\\pard after\\par}").encode("ascii")
+
+
+def rtf_units_shard(ctx: Ctx):
+    """RTF \\uN escapes are UTF-16 code units: any sequence of them (pairs, lone halves, reversed pairs, non-characters) in body, table cell and \\info must come out as encodable text."""
+    part = Partial()
+    seq = st.lists(st.sampled_from(UNITS), max_size=5)
+    strat = st.fixed_dictionaries({"title": seq, "author": seq, "body": seq, "cell": seq})
+
+    def ev(parts):
+        case = {"kind": "bytes", "format": "rtf", "ext": "rtf", "bytes_b64": base64.b64encode(_rtf_units(parts)).decode(), "path": "none"}
+        return evaluate(ctx, case, part)
+
+    hyp_search(ctx, "c04-rtf-units", strat, ev, ctx.n(600, 20000), part, model_shrink=False)
+    return part
+
+
 def run(ctx: Ctx) -> Partial:
     part = Partial()
     fixtures(ctx, part)
+    part.merge(shard_map(ctx, "vf.props.c04", "rtf_units_shard", 1))
     t = _targets()
     part.merge(shard_map(ctx, "vf.props.c04", "shard", len(t), extra_per_shard=[list(x) for x in t]))
     return part
